@@ -382,7 +382,11 @@ func shrink(schema *graphql.Schema, c *Case, sig string) *Case {
 				}
 			}
 		}
-		try(func(t *Case) bool { ok := t.Args.FilterText != nil; t.Args.FilterText, t.Args.FilterFields = nil, nil; return ok })
+		try(func(t *Case) bool {
+			ok := t.Args.FilterText != nil
+			t.Args.FilterText, t.Args.FilterFields = nil, nil
+			return ok
+		})
 		try(func(t *Case) bool { ok := t.Args.FilterFields != nil; t.Args.FilterFields = nil; return ok })
 		try(func(t *Case) bool { ok := t.Args.SortBy != nil; t.Args.SortBy, t.Args.SortOrder = nil, nil; return ok })
 		try(func(t *Case) bool { ok := t.Args.SortOrder != nil; t.Args.SortOrder = nil; return ok })
